@@ -1030,6 +1030,10 @@ class PyCdlib:
         child_links = []
         lastbyte = 0
         dirs = collections.deque([root_dir_record])
+        # The extents of the directories already queued.  A directory that is
+        # reachable from itself (a corrupt or malicious ISO) would otherwise
+        # be walked forever.
+        seen_dir_extents = {root_dir_record.extent_location()}
         while dirs:
             dir_record = dirs.popleft()
 
@@ -1166,6 +1170,9 @@ class PyCdlib:
                         # record in the parent_links list for later linking.
                         parent_links.append(new_record)
                     if not dots and not rr_cl:
+                        if new_extent_loc in seen_dir_extents:
+                            raise pycdlibexception.PyCdlibInvalidISO('Directory at extent %d is referenced more than once; the directory hierarchy has a loop' % (new_extent_loc))
+                        seen_dir_extents.add(new_extent_loc)
                         dirs.append(new_record)
                         new_record.set_ptr(extent_to_ptr[new_extent_loc])
 
@@ -2109,6 +2116,9 @@ class PyCdlib:
                                                 None)
 
         udf_file_entries = collections.deque([self.udf_root])
+        # The extents of the directory File Entries already queued; see
+        # _walk_directories for why.
+        seen_dir_extents = {abs_file_entry_extent}
         while udf_file_entries:
             udf_file_entry = udf_file_entries.popleft()
 
@@ -2161,6 +2171,9 @@ class PyCdlib:
                     next_entry.file_ident = file_ident
 
                     if file_ident.is_dir():
+                        if abs_file_entry_extent in seen_dir_extents:
+                            raise pycdlibexception.PyCdlibInvalidISO('UDF directory at extent %d is referenced more than once; the directory hierarchy has a loop' % (abs_file_entry_extent))
+                        seen_dir_extents.add(abs_file_entry_extent)
                         udf_file_entries.append(next_entry)
                     else:
                         if next_entry.get_data_length() > 0:
